@@ -31,29 +31,7 @@ def profile(prop, tier):
     return p
 
 
-def safe_starts(rows):
-    """Vertices from which encode terminates for every message: every reachable vertex has an out-arc and can reach a
-    branching vertex."""
-    n = len(rows)
-    s = set(v for v in range(n) if M.out_degree(rows, v) >= 1)
-    changed = True
-    while changed:
-        changed = False
-        for v in sorted(s):
-            if any(w not in s for w in rows[v] if w >= 0):
-                s.discard(v)
-                changed = True
-        good = set(v for v in s if M.out_degree(rows, v) >= 2)
-        grew = True
-        while grew:
-            grew = False
-            for v in s:
-                if v not in good and any(w in good for w in rows[v] if w >= 0):
-                    good.add(v)
-                    grew = True
-        if good != s:
-            s, changed = good, True
-    return sorted(s)
+safe_starts = M.safe_starts
 
 
 class Sim(object):
